@@ -360,7 +360,10 @@ func (srv *simServer) generated(slot int, nt int32) {
 	}
 	for _, l := range srv.live {
 		if l.seq == sq {
-			l.req.gen = append(l.req.gen, nt)
+			if !l.req.embedding {
+				// (the last prompt entry of an embedding request asks for output as well; nothing is sampled)
+				l.req.gen = append(l.req.gen, nt)
+			}
 			return
 		}
 	}
@@ -409,6 +412,9 @@ func (w *runWorld) afterRequest(srv *simServer, r *reqState) {
 		if r.cancelled {
 			verifsim.Probe("cancel_before_admission")
 		}
+		return
+	}
+	if r.embedding {
 		return
 	}
 	w.checkStream(srv, r)
